@@ -137,7 +137,9 @@ func (m *Mon) Update(f MonFlags, sc *Scenario, pre *View, a Action, res *StepRes
 			if n.Req == nil {
 				n.Req = map[string]ReqMon{}
 			}
-			n.Req[id] = ReqMon{Prov: hexs(r.Provider), IssueH: pre.H, Timeout: to}
+			// a module-service call issues and answers its request within one message
+			_, answered := post.Resps[id]
+			n.Req[id] = ReqMon{Prov: hexs(r.Provider), IssueH: pre.H, Timeout: to, Answered: answered}
 		}
 		if a.Kind == "respond" && res.OK() {
 			if e, ok := n.Req[a.Req]; ok {
